@@ -12,7 +12,7 @@ namespace Pint
 
 inductive Err
   | dimensionality | offsetCalc | undefined | defSyntax | value | type | key | recursion
-  | redefinition | inexact | other
+  | redefinition | inexact | zeroDiv | other
   deriving DecidableEq, Repr, Inhabited
 
 def Err.toString : Err → String
@@ -20,7 +20,7 @@ def Err.toString : Err → String
   | .undefined => "UndefinedUnitError" | .defSyntax => "DefinitionSyntaxError"
   | .value => "ValueError" | .type => "TypeError" | .key => "KeyError"
   | .recursion => "RecursionError" | .redefinition => "RedefinitionError"
-  | .inexact => "Inexact" | .other => "Other"
+  | .inexact => "Inexact" | .zeroDiv => "ZeroDivisionError" | .other => "Other"
 
 /-- insertion-ordered `dict[str, α]` -/
 abbrev Dict (α : Type) := List (String × α)
